@@ -590,7 +590,7 @@ pub fn main(args: &[String]) -> i32 {
         "samples": samples,
         "extra": {"exhaustive_single_manipulations_slice_completed": exhaustive_single as u64},
         "rule": "configuration matrix key{none,K1,K2}^2 x 5 role pairings x 3 protocol pairings enumerated exhaustively (untouched exchange = H1/H2); for every configuration every single-frame manipulation operator on each of the four frames, plus random pairs/triples of manipulations; distinct = distinct (configuration, manipulation) tuples; non-trivial for H3 = at least one endpoint holds a key",
-        "minima": {"class.H1-matching": 5, "class.H2-mismatch": 50, "manipulated.keyed": 2000, "manipulated.keyed.some_end_accepted_justified": 50},
+        "minima": {"class.H1-matching": 3, "class.H2-mismatch": 30, "manipulated.keyed": 1000, "manipulated.keyed.some_end_accepted_justified": 25},
         "assumptions": [
             "frames are decoded with mirror structs of tako's crate-private handshake messages (same bincode layout); a layout change makes decoding fail and the run inconclusive, not silent",
             "the adversary has no key: it can only pass, replay, reflect, splice and modify frames",
